@@ -29,6 +29,17 @@ let run path =
         incr records;
         let bad what m im = report name (i+1) what m im; stop := true in
         match toks with
+        | "load" :: c :: tl :: sz :: mo :: nw :: _ :: words ->
+            (* state taken from a live association: positions of the set bits of the dumped words *)
+            let rec pos l acc = match l with
+              | i :: v :: r ->
+                  let v = Z.of_string v and i = int_of_string i in
+                  let acc = ref acc in
+                  for b = 0 to 63 do if Z.testbit v b then acc := czi (i * 64 + b) :: !acc done;
+                  pos r !acc
+              | _ -> acc in
+            q := { M.cum = cz c; M.tail = cz tl; M.size = cz sz; M.bits = pos words []; M.dups = []; M.max_off = cz mo; M.nwords = cz nw }
+        | ["sackcum"; c] -> if sz (!q).M.cum <> c then bad "SACK cumulative TSN" (sz (!q).M.cum) c
         | ["new"; m] -> q := M.rpq_new (cz m)
         | ["init"; c] -> q := M.rpq_init !q (cz c)
         | ["push"; t; r] ->
